@@ -1016,6 +1016,7 @@ def build(only=None, name="archs"):
                      ],
            requires=[("pre.len_zero_based", "*old(len) == old(seq).total()"), ("pre.seq_fresh", "old(seq).yielded().len() == 0")],
            ensures=[("C13.deserialize.wf", "r is Ok ==> r->Ok_0.wf() && vx_tables_wf(r->Ok_0@)"),
+                    ("C13.deserialize.single_table", "r is Ok ==> vx_single_table(r->Ok_0@) && forall|k: archetype::IdentifierRef<R>| r->Ok_0@.dom().contains(k) ==> (#[trigger] r->Ok_0@[k]).key() == k"),
                     ("C11.deserialize.tables_kept", "r is Ok ==> forall|j: int| 0 <= j < final(seq).yielded().len() ==> r->Ok_0@.dom().contains((#[trigger] final(seq).yielded()[j]).key()) && r->Ok_0@[final(seq).yielded()[j].key()] == final(seq).yielded()[j]"),
                     ("C11.deserialize.nothing_else", "r is Ok ==> forall|k: archetype::IdentifierRef<R>| r->Ok_0@.dom().contains(k) ==> (exists|j: int| 0 <= j < final(seq).yielded().len() && (#[trigger] final(seq).yielded()[j]).key() == k)"),
                     ("C11.deserialize.distinct_component_sets", "r is Ok ==> forall|a: int, b: int| 0 <= a < b < final(seq).yielded().len() ==> vx_key_bits((#[trigger] final(seq).yielded()[a]).key()) != vx_key_bits((#[trigger] final(seq).yielded()[b]).key())"),
@@ -1029,6 +1030,7 @@ def build(only=None, name="archs"):
                ("de.distinct", "forall|a: int, b: int| 0 <= a < b < seq.yielded().len() ==> vx_key_bits((#[trigger] seq.yielded()[a]).key()) != vx_key_bits((#[trigger] seq.yielded()[b]).key())"),
            ], decreases="seq.remaining()")],
            hints=[Hint("start", "let ghost mut vx_prev = seq.yielded();"),
+                  Hint("before", "proof { archetypes.lemma_single_table(); }", anchor=r"Ok\(archetypes\)"),
                   Hint("before", "let ghost vx_y0 = seq.yielded(); let ghost vx_t0 = archetypes@; let ghost vx_new = archetype;", anchor=r"\*len \+= archetype\.len\(\);"),
                   Hint("after_block", DE_STEP, anchor=r"if let Err\(archetype\) = archetypes\.insert\(archetype\)")],
            props=["C11", "C13", "C06", "C01"]),
